@@ -40,7 +40,7 @@ ASSUMPTIONS = [
     'rule-variable cycles and a too-new ninja_required_version end the process with "ninja: fatal:" and no file:line: counted as rejections',
     'the reference parses a whole file before evaluating it: when a manifest has several defects the two sides may name different ones '
     '(only presence of a rejection with file:line is compared then)',
-    'include depth of the generator <= 3 (include fuel 8 on the model side)']
+    'include nesting is modelled exactly (limit 200, recursion fuel 201 on the model side); the reference rejects nesting deeper than its fuel (201) at the same include statement (choice C8)']
 
 KEYS = 'command description depfile dyndep rspfile rspfile_content deps restat generator msvc_deps_prefix pool'.split()
 def H(s): return s.encode().hex()
